@@ -116,7 +116,7 @@ impl CanonicalRequest {
                             forall|k: String, i: int| vk_bm.contains_key(k) && 0 <= i < vk_bm[k]@.len() ==> well_escaped(str_bytes(#[trigger] vk_bm[k]@[i]@)),
                             itf.seq().len() == vk_bm.len(),
                             qmap(query_parameters@) == merge_append(qmap(url_map), entries_qmap(itf.seq(), itf.index@)), //# C12 name=merged_prefix
-                            itf.index@ == itf.seq().len() ==> qmap(query_parameters@) == merge_append(qmap(url_map), qmap(vk_bm)), //# C12 name=all_body_parameters_merged_whatever_the_iteration_order
+                            itf.index@ == itf.seq().len() ==> qmap(query_parameters@) == merge_append(qmap(url_map), qmap(vk_bm)), //# C12 C18 name=all_body_parameters_merged_whatever_the_iteration_order
                             forall|k: String| #[trigger] query_parameters@.contains_key(k) ==> query_parameters@[k]@.len() > 0,
                             forall|k: String, i: int| query_parameters@.contains_key(k) && 0 <= i < query_parameters@[k]@.len() ==> well_escaped(str_bytes(#[trigger] query_parameters@[k]@[i]@)),
 //@ before 1 `query_parameters.entry(key).or_default().extend(values);`
